@@ -44,6 +44,73 @@ def e2e_oracle(hist, records):
     return bad
 
 
+def prog_stream(ctx):
+    """Priority marks on functions without a source file (tasks=[…]) and on functions wrapped by a functools.wraps decorator
+    below the mark. Oracle from the declared marks only: both marks ⇒ exit 3 and nothing executed; otherwise every try_first
+    task runs before every unmarked one and every try_last task after all others (the tasks are independent)."""
+    import json
+    import shutil
+    import subprocess
+    from concurrent.futures import ThreadPoolExecutor
+    import common
+    rng = ctx.rng
+    cases = [{"kind": "pathless", "tasks": [{"name": "task_both", "marks": ["try_first", "try_last"]}, {"name": "task_plain", "marks": []}]},
+             {"kind": "wrapped", "tasks": [{"name": "task_both", "marks": ["try_last", "try_first"], "wrap": True}]}]
+    for _ in range(ctx.scale(10, 80)):
+        kind = rng.choice(["pathless", "wrapped"])
+        tasks = []
+        for i in range(rng.randint(3, 7)):
+            marks = rng.choice([[], [], ["try_first"], ["try_last"], ["try_first"], ["try_last"]])
+            if rng.random() < 0.04:
+                marks = ["try_first", "try_last"]
+            tasks.append({"name": f"task_p{i}{rng.choice('abxyz')}", "marks": list(marks), "wrap": kind == "wrapped" and rng.random() < 0.6})
+        cases.append({"kind": kind, "tasks": tasks})
+    worker = str(common.VERIF / "harness" / "impl" / "prio_prog_worker.py")
+
+    def one(args):
+        i, c = args
+        root = common.scratch_dir("c19p")
+        try:
+            env = dict(__import__("os").environ, PYTHONHASHSEED=str(1 + (ctx.seed * 131 + i * 7) % 1000), PYTHONDONTWRITEBYTECODE="1")
+            r = subprocess.run([common.PY, worker], input=json.dumps(dict(c, root=str(root / "p"))), capture_output=True, text=True, env=env, timeout=120)
+            return json.loads(r.stdout.strip().splitlines()[-1]) if r.stdout.strip() else {"raised": "worker:" + r.stderr[-200:]}
+        except Exception as e:  # noqa: BLE001
+            return {"raised": f"worker:{type(e).__name__}"}
+        finally:
+            shutil.rmtree(root, ignore_errors=True)
+    with ThreadPoolExecutor(max_workers=8) as ex:
+        results = list(ex.map(one, enumerate(cases)))
+    for c, res in zip(cases, results):
+        both = [t["name"] for t in c["tasks"] if "try_first" in t["marks"] and "try_last" in t["marks"]]
+        pr = {t["name"]: (1 if "try_first" in t["marks"] else -1 if "try_last" in t["marks"] else 0) for t in c["tasks"]}
+        ctx.case(["prog", c], len(set(pr.values())) >= 2 or bool(both), {"prog": c, "result": res})
+        ctx.dist["prog:" + c["kind"]] += 1
+        if str(res.get("raised") or "").startswith("worker:"):
+            raise common.InfraError(f"C19 prog worker failed: {res['raised']}")
+        if both:
+            if res.get("raised") or res.get("exit") != 3 or res.get("executed"):
+                ctx.violation(f"reject: task(s) {both} carry try_first and try_last ({c['kind']}): expected collection failure (exit 3, nothing executed), "
+                              f"got exit {res.get('exit')} raised={res.get('raised')} executed={res.get('executed')}", {"layer": "prog", "case": c})
+            continue
+        if res.get("raised") or res.get("exit") != 0:
+            ctx.violation(f"prog: build of independent marked tasks ({c['kind']}) raised / exit {res.get('exit')} {res.get('raised')}", {"layer": "prog", "case": c})
+            continue
+        if res.get("collected") != len(c["tasks"]) or sorted(res["executed"]) != sorted(t["name"] for t in c["tasks"]):
+            ctx.violation(f"prog: {len(c['tasks'])} marked task functions were handed to pytask ({c['kind']}) but {res.get('collected')} were collected "
+                          f"and {res['executed']} executed (exit 0): a task was silently dropped", {"layer": "prog", "case": c})
+            continue
+        order = res["executed"]
+        for i, x in enumerate(order):
+            for y in order[i + 1:]:
+                if pr.get(y, 0) > pr.get(x, 0):
+                    ctx.violation(f"prio-e2e: task {x} (priority {pr.get(x)}) ran before {y} (priority {pr.get(y)}) although both were ready "
+                                  f"({c['kind']}; order {order})", {"layer": "prog", "case": c})
+                    break
+            else:
+                continue
+            break
+
+
 def e2e_histories(ctx):
     rng = ctx.rng
     hs = []
@@ -73,9 +140,12 @@ def run(ctx):
 
     engine.run_campaign(ctx, hs[:1], e2e_oracle, nontrivial=nontrivial, compare_model=False)   # both marks: rejected at collection
     engine.run_campaign(ctx, hs[1:], e2e_oracle, nontrivial=nontrivial)
+    prog_stream(ctx)
 
 
 def replay(ctx, obj):
+    if obj["input"].get("layer") == "prog":
+        return False, "prog-stream cases are replayed by re-running the check with the same seed (case: %s)" % obj["input"].get("case")
     if obj["input"].get("layer") == "engine-e2e":
         h = obj["input"]["history"]
         engine.run_campaign(ctx, [h] * 4, e2e_oracle, compare_model=not h.get("tag", "").startswith("corpus-both"))
